@@ -290,7 +290,8 @@ func (refs Targets) InnermostAtPos(file string, pos hcl.Pos) (Targets, bool) {
 
 		nestedTargets, ok := target.NestedTargets.InnermostAtPos(file, pos)
 		if ok {
-			innermostTargets = nestedTargets
+			// keep any innermost targets found so far
+			innermostTargets = append(innermostTargets, nestedTargets...)
 			continue
 		}
 
